@@ -206,9 +206,26 @@ def s_int(x=0, base=None):
         return s_int(x.pick(), base) if base is not None else s_int(x.pick())
     if isinstance(x, SStr):
         b = 10 if base is None else base
+        cs = x.c
+        if b == 0:
+            # base 0: the literal's own prefix selects the base
+            body = cs[1:] if cs and core_b(mkstr((cs[0],)) in ("-", "+") if isinstance(mkstr((cs[0],)), str) else s_contains(mkstr((cs[0],)), ["-", "+"])) else cs
+            if len(body) >= 2 and core_b(mkstr((body[0],)) == "0"):
+                p2 = mkstr((body[1],)).lower()
+                if core_b(p2 == "x"):
+                    b = 16
+                elif core_b(p2 == "b"):
+                    b = 2
+                elif core_b(p2 == "o"):
+                    b = 8
+                else:
+                    raise Unmodelled("int(str, 0) with leading zero")
+            else:
+                b = 10
+                if len(body) > 1 and core_b(mkstr((body[0],)) == "0"):
+                    raise Unmodelled("int(str, 0) with leading zero")
         if b not in (2, 8, 10, 16):
             raise Unmodelled(f"int(str, {b})")
-        cs = x.c
         if not cs:
             raise ValueError("invalid literal for int()")
         # optional sign
